@@ -4,6 +4,7 @@ import (
 	"fmt"
 	"math"
 	"math/big"
+	"net"
 	"regexp"
 	"strconv"
 	"strings"
@@ -375,7 +376,103 @@ func c15Misc() []miscValue {
 		{"*Number", &pN{9}, nil, np(9), nil},
 		{"nil *Number (nil-safe)", (*pN)(nil), nil, np(7), nil},
 		{"*value-receiver Stringer", &tS{"vs"}, sp("vs"), nil, nil},
+		{"*Stringer+Number+Boolean", &pSNB{"3 items", 3, false}, sp("3 items"), np(3), bp(false)},
+		{"*Stringer+Number+Boolean (2)", &pSNB{"off", 0, true}, sp("off"), np(0), bp(true)},
+		{"slice-kind Stringer", sliceS{"a", "b"}, sp("a+b"), nil, nil},
+		{"slice-kind Stringer (2)", sliceS{"c"}, sp("c"), nil, nil},
+		{"map-kind Stringer", mapS{"k": 1}, sp("m1"), nil, nil},
+		{"struct-with-slice Stringer", structSliceS{[]string{"p", "q"}, "t"}, sp("tpq"), nil, nil},
+		{"struct-with-slice Stringer (2)", structSliceS{nil, "u"}, sp("u"), nil, nil},
+		{"func-kind Stringer", funcS(func() string { return "fs" }), sp("fs"), nil, nil},
+		{"net.IP", net.IP{10, 0, 0, 1}, sp("10.0.0.1"), nil, nil},
+		{"time.Duration", 1500 * time.Millisecond, sp("1.5s"), nil, nil},
 	}
+}
+
+// pointer type implementing all three interfaces through pointer receivers
+type pSNB struct {
+	s string
+	n float64
+	b bool
+}
+
+func (p *pSNB) String() string  { return p.s }
+func (p *pSNB) Number() float64 { return p.n }
+func (p *pSNB) Boolean() bool   { return p.b }
+
+// Stringers of kinds that cannot be compared with ==
+type sliceS []string
+
+func (s sliceS) String() string { return strings.Join(s, "+") }
+
+type mapS map[string]int
+
+func (m mapS) String() string { return fmt.Sprintf("m%d", len(m)) }
+
+type structSliceS struct {
+	parts []string
+	tag   string
+}
+
+func (s structSliceS) String() string { return s.tag + strings.Join(s.parts, "") }
+
+type funcS func() string
+
+func (f funcS) String() string { return f() }
+
+// c15PairRun: coercing one value and then another gives the second value's own results (no state is carried
+// from one coercion to the next), also when the two are the same value or equal values of one type.
+func c15PairRun(i, j int) core.Result {
+	ms := c15Misc()
+	if i >= len(ms) || j >= len(ms) {
+		return core.Skipped("index")
+	}
+	base, pan := coerceAll(c15Misc()[j].v)
+	if pan != "" {
+		return core.Skipped("second-value-panics-alone")
+	}
+	if _, pan := coerceAll(ms[i].v); pan != "" {
+		return core.Skipped("first-value-panics-alone")
+	}
+	got, pan := coerceAll(ms[j].v)
+	if pan != "" {
+		return core.Violation("panic", fmt.Sprintf("coercing %s after %s panicked: %s", ms[j].name, ms[i].name, pan))
+	}
+	if !sameCoerced(got, base) {
+		return core.Violation("stateful", fmt.Sprintf("after coercing %s, %s coerces to %v but on its own to %v", ms[i].name, ms[j].name, got, base))
+	}
+	got, pan = coerceAll(stick.NewSafeValue(ms[j].v, "html"))
+	if pan != "" {
+		return core.Violation("panic", fmt.Sprintf("coercing NewSafeValue(%s) after %s and %s panicked: %s", ms[j].name, ms[i].name, ms[j].name, pan))
+	}
+	if !sameCoerced(got, base) {
+		return core.Violation("stateful", fmt.Sprintf("after coercing %s and %s, NewSafeValue(%s) coerces to %v, the bare value to %v", ms[i].name, ms[j].name, ms[j].name, got, base))
+	}
+	return core.Okay(true, got.String())
+}
+
+// c15MutateRun: a pointer value changed between two coercions is read afresh by each of them.
+func c15MutateRun(k int) core.Result {
+	p := &pSNB{"a1", 1, true}
+	ps := &pS{"a1"}
+	var vals = []stick.Value{p, ps, stick.NewSafeValue(p, "html"), customSafe{p}}
+	v := vals[k]
+	first, pan := coerceAll(v)
+	if pan != "" {
+		return core.Violation("panic", "coercing a pointer value panicked: "+pan)
+	}
+	p.s, p.n, p.b, ps.s = "b22", 22, false, "b22"
+	second, pan := coerceAll(v)
+	if pan != "" {
+		return core.Violation("panic", "coercing a pointer value again panicked: "+pan)
+	}
+	if first.s != "a1" || second.s != "b22" {
+		return core.Violation("stateful", fmt.Sprintf("%T: CoerceString gave %q, then after the value changed %q (want a1, b22)", v, first.s, second.s))
+	}
+	if k != 1 && (first.n != 1 || second.n != 22 || first.b != true || second.b != false) {
+		return core.Violation("stateful", fmt.Sprintf("%T: before the change %v, after it %v", v, first, second))
+	}
+	return core.Okay(true, second.String())
 }
 
 func c15MiscRun(i int) core.Result {
@@ -452,6 +549,17 @@ func c15Levels(tier string) []core.Level {
 				emit(core.Case{Fam: "misc", N: []int{i}})
 			}
 		}},
+		{Name: "histories of two coercions: every ordered pair of the special values (the second coerces as it does alone, bare and wrapped); a pointer value changed between two coercions", Gen: func(emit func(core.Case)) {
+			n := len(c15Misc())
+			for i := 0; i < n; i++ {
+				for j := 0; j < n; j++ {
+					emit(core.Case{Fam: "pair", N: []int{i, j}})
+				}
+			}
+			for k := 0; k < 4; k++ {
+				emit(core.Case{Fam: "mutate", N: []int{k}})
+			}
+		}},
 		{Name: "every integer of the 16-bit kinds (-32768..65535) in every Go numeric type that holds it", Gen: func(emit func(core.Case)) {
 			for i := -32768; i <= 65535; i++ {
 				emit(core.Case{Fam: "int", Args: []string{strconv.Itoa(i)}})
@@ -519,6 +627,10 @@ func c15Run(c core.Case) core.Result {
 	switch c.Fam {
 	case "misc":
 		return c15MiscRun(c.N[0])
+	case "pair":
+		return c15PairRun(c.N[0], c.N[1])
+	case "mutate":
+		return c15MutateRun(c.N[0])
 	case "int":
 		return c15Int(c.Args[0])
 	case "f64":
@@ -537,7 +649,7 @@ func init() {
 		Category: "exploration",
 		Rule: "CoerceString/CoerceNumber/CoerceBool on: ~50 special values (nil, bools, strings, typed nil pointers, unsupported kinds, types implementing each subset of Stringer/Number/Boolean, decimals); " +
 			"every integer of the 16-bit kinds and of [-10^5-2, 10^5+2] (thorough: 10^6+2) and boundary integers up to 2^64 in every Go numeric type that holds them exactly; " +
-			"every float64 with <= 8 significant mantissa bits at every exponent, neighbours of all powers of ten and two; each also wrapped as safe 1..3 deep in every mix of the library's wrapper and a user-defined SafeValue. " +
+			"every float64 with <= 8 significant mantissa bits at every exponent, neighbours of all powers of ten and two; pointer types implementing all three interfaces, Stringers of non-comparable kinds (slice, map, func, struct holding a slice, net.IP); every ordered pair of these values coerced one after the other, and a pointer value changed between two coercions; each also wrapped as safe 1..3 deep in every mix of the library's wrapper and a user-defined SafeValue. " +
 			"Laws: no panic; documented fallbacks; identical number/bool (and string for |n|<10^6) across carriers; safe(v) coerces like v; true/false -> '1'/'' and 1/0; " +
 			"decimal spellings coerce to the number they spell; float64 -> string -> number is the identity bit for bit; integral |f|<10^6 prints as a plain integer. distinct = distinct value; non-trivial = finite value inside a claimed law",
 		Assumptions: []string{
